@@ -87,7 +87,7 @@ func validateFields(doc *ast.Document, s *schema.Schema, features schema.Feature
 			if err := addFieldSelections(set, node, fragmentDefinitions); err != nil {
 				ret = append(ret, err)
 				return false
-			} else if err := validateFieldsInSetCanMerge(set, fragmentDefinitions, typeInfo); err != nil {
+			} else if err := validateFieldsInSetCanMerge(set, fragmentDefinitions, typeInfo, newMergeMemo()); err != nil {
 				ret = append(ret, err)
 				return false
 			}
@@ -103,13 +103,49 @@ type fieldAndParent struct {
 	parent *ast.SelectionSet
 }
 
-func validateFieldsInSetCanMerge(fieldsForName map[string][]fieldAndParent, fragmentDefinitions map[string]*ast.FragmentDefinition, typeInfo *TypeInfo) *Error {
+type fieldPair struct {
+	a, b *ast.Field
+}
+
+// mergeMemo remembers, for the check of one selection set, which pairs of field nodes have
+// already been compared (or are being compared). Both comparisons depend on the two nodes only, a
+// pair that was compared before returned no error (an error ends the whole check), and a pair
+// that is still being compared can only be met again through a fragment cycle, which the
+// fragment rules report. Without it the same pairs are compared over and over (exponentially
+// often for nested overlapping fields) and forever when fragments form a cycle.
+type mergeMemo struct {
+	sameResponseShape map[fieldPair]struct{}
+	canMerge          map[fieldPair]struct{}
+}
+
+func newMergeMemo() *mergeMemo {
+	return &mergeMemo{
+		sameResponseShape: map[fieldPair]struct{}{},
+		canMerge:          map[fieldPair]struct{}{},
+	}
+}
+
+// Returns true if the (unordered) pair is in the set already. Otherwise adds it.
+func visitFieldPair(set map[fieldPair]struct{}, a, b *ast.Field) bool {
+	if _, ok := set[fieldPair{a, b}]; ok {
+		return true
+	} else if _, ok := set[fieldPair{b, a}]; ok {
+		return true
+	}
+	set[fieldPair{a, b}] = struct{}{}
+	return false
+}
+
+func validateFieldsInSetCanMerge(fieldsForName map[string][]fieldAndParent, fragmentDefinitions map[string]*ast.FragmentDefinition, typeInfo *TypeInfo, memo *mergeMemo) *Error {
 	for _, fields := range fieldsForName {
 		for i := 0; i < len(fields); i++ {
 			for j := i + 1; j < len(fields); j++ {
 				fieldA := fields[i].field
 				fieldB := fields[j].field
-				if err := validateSameResponseShape(fieldA, fieldB, fragmentDefinitions, typeInfo); err != nil {
+				if visitFieldPair(memo.canMerge, fieldA, fieldB) {
+					continue
+				}
+				if err := validateSameResponseShape(fieldA, fieldB, fragmentDefinitions, typeInfo, memo); err != nil {
 					return err
 				}
 
@@ -147,7 +183,7 @@ func validateFieldsInSetCanMerge(fieldsForName map[string][]fieldAndParent, frag
 						return err
 					} else if err := addFieldSelections(mergedSet, fieldB.SelectionSet, fragmentDefinitions); err != nil {
 						return err
-					} else if err := validateFieldsInSetCanMerge(mergedSet, fragmentDefinitions, typeInfo); err != nil {
+					} else if err := validateFieldsInSetCanMerge(mergedSet, fragmentDefinitions, typeInfo, memo); err != nil {
 						return err
 					}
 				}
@@ -209,7 +245,11 @@ func valuesAreIdentical(a, b ast.Value) bool {
 	panic(fmt.Sprintf("unexpected value type: %T", a))
 }
 
-func validateSameResponseShape(fieldA, fieldB *ast.Field, fragmentDefinitions map[string]*ast.FragmentDefinition, typeInfo *TypeInfo) *Error {
+func validateSameResponseShape(fieldA, fieldB *ast.Field, fragmentDefinitions map[string]*ast.FragmentDefinition, typeInfo *TypeInfo, memo *mergeMemo) *Error {
+	if visitFieldPair(memo.sameResponseShape, fieldA, fieldB) {
+		return nil
+	}
+
 	var typeA, typeB schema.Type
 
 	if fieldA.Name.Name == "__typename" {
@@ -279,7 +319,7 @@ func validateSameResponseShape(fieldA, fieldB *ast.Field, fragmentDefinitions ma
 	for _, fields := range fieldsForName {
 		for i := 0; i < len(fields); i++ {
 			for j := i + 1; j < len(fields); j++ {
-				if err := validateSameResponseShape(fields[i].field, fields[j].field, fragmentDefinitions, typeInfo); err != nil {
+				if err := validateSameResponseShape(fields[i].field, fields[j].field, fragmentDefinitions, typeInfo, memo); err != nil {
 					return err
 				}
 			}
